@@ -2,5 +2,5 @@ use tgv_ide::*;
 
 fn main() {
     ws::clean_env();
-    tgv_core::main_for(&[&c03::C03, &c05::C05, &c06::C06, &c07::C07, &c15::C15, &c16::C16, &c17::C17, &c18::C18, &c19::C19, &c20::C20]);
+    tgv_core::main_for(&[&c03::C03, &c05::C05, &c06::C06, &c07::C07, &c13::C13, &c15::C15, &c16::C16, &c17::C17, &c18::C18, &c19::C19, &c20::C20]);
 }
